@@ -67,7 +67,8 @@ def run_task(task):
             hist.append(v)
             n[0] += 1
             check(tr, hist, k, f"SlidingWindowTracker({k}) after the position-coded stream 2^t, t<{t + 1}")
-    except Violation as v:
+    except Exception as e:
+        v = e if isinstance(e, Violation) else choice.library_exception(e, f'for SlidingWindowTracker({k})')
         viol.append((v.key, v.what, {}, ()))
     return dict(task=list(task), transitions=n[0], states=len(states), violations=viol)
 
